@@ -88,13 +88,14 @@ func main() {
 	// ---- A. Box2.MinMaxDist2: all integer boxes in [-2,2]^2, all half-integer points in [-3,3]^2
 	type iv struct{ lo, hi float64 }
 	var ivs []iv
-	for lo := -2; lo <= 2; lo++ {
-		for hi := lo + 1; hi <= 2; hi++ {
+	R := vlib.Pick(c, 2, 3) // thorough: integer boxes in [-3,3]^d, half-integer points in [-4,4]^d
+	for lo := -R; lo <= R; lo++ {
+		for hi := lo + 1; hi <= R; hi++ {
 			ivs = append(ivs, iv{float64(lo), float64(hi)})
 		}
 	}
 	var pts []float64
-	for i := -6; i <= 6; i++ {
+	for i := -2 * (R + 1); i <= 2*(R+1); i++ {
 		pts = append(pts, float64(i)/2)
 	}
 	// quarter offsets shift the whole configuration off the integers (still dyadic: exact)
@@ -224,7 +225,7 @@ func main() {
 	blends := []blend{{"min", nil}, {"PolyMin(1/8)", sdf.PolyMin(0.125)}, {"PolyMin(1/2)", sdf.PolyMin(0.5)},
 		{"PolyMin(2)", sdf.PolyMin(2)}, {"PolyMin(5)", sdf.PolyMin(5)}, {"RoundMin(1/2)", sdf.RoundMin(0.5)},
 		{"ChamferMin(1/2)", sdf.ChamferMin(0.5)}, {"ExpMin(32)", sdf.ExpMin(32)}}
-	maxSize := vlib.Pick(c, 3, 4)
+	maxSize := vlib.Pick(c, 3, 5)
 	var sets [][]int
 	var rec func(start int, cur []int)
 	rec = func(start int, cur []int) {
@@ -242,8 +243,14 @@ func main() {
 	// orderings: operand order matters to the index-based choice of the nearest box; take the sorted
 	// order and its reverse.
 	var lat []float64
-	for i := -12; i <= 12; i++ {
-		lat = append(lat, float64(i)/4)
+	if c.Thorough() {
+		for i := -24; i <= 24; i++ {
+			lat = append(lat, float64(i)/8)
+		}
+	} else {
+		for i := -12; i <= 12; i++ {
+			lat = append(lat, float64(i)/4)
+		}
 	}
 	var nt, tr int64
 	pruned := vlib.NewCounter()
